@@ -103,6 +103,11 @@ def _migrate_csv_to_rules(csv_file: str, config_dir: str, backup: bool = True) -
     """
     Migrate merchant_categories.csv to merchants.rules format.
 
+    The steps are ordered so that an interruption at any point leaves a budget that
+    still classifies with the user's rules: the new file is written under a temporary
+    name and renamed into place, settings.yaml is pointed at it, and only then is the
+    CSV moved away.
+
     Args:
         csv_file: Path to the CSV file
         config_dir: Path to config directory
@@ -120,19 +125,16 @@ def _migrate_csv_to_rules(csv_file: str, config_dir: str, backup: bool = True) -
         csv_rules = load_merchant_rules(csv_file)
         content = csv_to_merchants_content(csv_rules)
 
-        # Write new file
+        # Write new file under a temporary name and rename it into place
         new_file = os.path.join(config_dir, 'merchants.rules')
-        with open(new_file, 'w', encoding='utf-8') as f:
+        tmp_file = new_file + '.tmp'
+        with open(tmp_file, 'w', encoding='utf-8') as f:
             f.write(content)
+        os.replace(tmp_file, new_file)
         print(f"  {C.GREEN}✓{C.RESET} Created: config/merchants.rules")
         print(f"      Converted {len(csv_rules)} merchant rules to new format")
 
-        # Backup old file
-        if backup and os.path.exists(csv_file):
-            shutil.move(csv_file, csv_file + '.bak')
-            print(f"  {C.GREEN}✓{C.RESET} Backed up: merchant_categories.csv → .bak")
-
-        # Update settings.yaml to reference new file
+        # Update settings.yaml to reference new file (before the CSV goes away)
         settings_path = os.path.join(config_dir, 'settings.yaml')
         if os.path.exists(settings_path):
             with open(settings_path, 'r', encoding='utf-8') as f:
@@ -143,6 +145,11 @@ def _migrate_csv_to_rules(csv_file: str, config_dir: str, backup: bool = True) -
                     f.write('merchants_file: config/merchants.rules\n')
                 print(f"  {C.GREEN}✓{C.RESET} Updated: config/settings.yaml")
                 print(f"      Added merchants_file: config/merchants.rules")
+
+        # Backup old file last: until here the budget still classifies with the CSV
+        if backup and os.path.exists(csv_file):
+            shutil.move(csv_file, csv_file + '.bak')
+            print(f"  {C.GREEN}✓{C.RESET} Backed up: merchant_categories.csv → .bak")
 
         return True
     except Exception as e:
